@@ -306,4 +306,30 @@ def expToks : Option (Bool × List Nat) → List Nat
 
 def NumShape.render (s : NumShape) : List Nat := s.int ++ fracToks s.frac ++ expToks s.exp
 
+/-! ## the `@ <timestamp>` clause: seconds as decimal text ↔ milliseconds -/
+
+/-- three digits of n < 1000 (`%03d`) -/
+def pad3Digits (r : Nat) : List Nat := [48 + r / 100 % 10, 48 + r / 10 % 10, 48 + r % 10]
+
+/-- `%.3f` of k ms in seconds (k ≥ 0; the sign is a separate token) -/
+def printMs (k : Nat) : List Nat := natDigits (k / 1000) ++ 46 :: pad3Digits (k % 1000)
+
+/-- milliseconds of the decimal `ip.fp` seconds, rounded half up: what timestamp.FromFloatSeconds(strconv.ParseFloat(text))
+    yields whenever the decimal is not exactly between two milliseconds (float64 error is far below the distance to the
+    boundary for |ms| < 2^52 and up to 6 decimals; an exact half such as `1.0005` depends on float rounding and is not
+    claimed) -/
+def decMs (ip fp : List Nat) : Nat :=
+  readNat ip * 1000 + readNat ((fp ++ [48, 48, 48]).take 3) +
+    (match fp.drop 3 with
+     | d :: _ => if d ≥ 53 then 1 else 0
+     | [] => 0)
+
+/-- decimal text `digits[.digits]` → ms -/
+def atMs (cs : List Nat) : Option Nat :=
+  let ip := cs.takeWhile isDigitB
+  match cs.dropWhile isDigitB with
+  | [] => some (decMs ip [])
+  | 46 :: fp => if fp.all isDigitB then some (decMs ip fp) else none
+  | _ => none
+
 end SH.PromLex
